@@ -4,6 +4,7 @@ From SV Require Import Lib.Base Gen.WireFields Model.WireBase Proofs.WireBasePro
 From SV Require Import Model.WireIgmp Proofs.WireIgmpProofs.
 From SV Require Import Model.WireIpv6Frag Proofs.WireIpv6FragProofs.
 From SV Require Import Model.WireIpv6Ext Proofs.WireIpv6ExtProofs.
+From SV Require Import Model.WireIcmpv6Hdr Proofs.WireIcmpv6HdrProofs Model.WireMld Proofs.WireMldProofs.
 From SV Require Import Props.C07b.
 
 Check (C07_igmp_accessors_safe : forall sum_ok bs,
@@ -27,3 +28,24 @@ Check (C07_v6ext_accessors_safe : forall bs,
   v6ext_next_header bs <> Panic /\ v6ext_header_len bs <> Panic /\ v6ext_payload bs <> Panic).
 
 Check (C07_v6ext_parse_total : forall bs, bytes_ok bs = true -> v6ext_parse bs <> Panic).
+
+Check (C07_icmp6h_generic_safe : forall bs, icmp6h_check_len bs = Ok tt ->
+  icmp6h_msg_type bs <> Panic /\ icmp6h_msg_code bs <> Panic /\ icmp6h_checksum bs <> Panic /\
+  icmp6h_header_len bs <> Panic /\ icmp6h_payload bs <> Panic).
+
+Check (C07_icmp6h_check_len_total : forall bs, icmp6h_check_len bs <> Panic).
+
+Check (C07_mld_accessors_safe : forall bs, icmp6h_check_len bs = Ok tt ->
+  (icmp6h_msg_type bs = Ok icmp6h_MLD_QUERY ->
+     mld_max_resp_code bs <> Panic /\ mld_mcast_addr bs <> Panic /\ mld_s_flag bs <> Panic /\
+     mld_qrv bs <> Panic /\ mld_qqic bs <> Panic /\ mld_num_srcs bs <> Panic) /\
+  (icmp6h_msg_type bs = Ok icmp6h_MLD_REPORT -> mld_nr_mcast_addr_rcrds bs <> Panic) /\
+  icmp6h_payload bs <> Panic).
+
+Check (C07_mld_parse_total : forall bs, mld_parse bs <> Panic).
+
+Check (C07_mld_icmp_parse_total : forall sum_ok rx bs, mld_icmp_parse sum_ok rx bs <> Panic).
+
+Check (C07_mldrec_accessors_safe : forall bs, mldrec_check_len bs = Ok tt ->
+  mldrec_record_type bs <> Panic /\ mldrec_aux_data_len bs <> Panic /\ mldrec_num_srcs_ bs <> Panic /\
+  mldrec_mcast_addr bs <> Panic /\ mldrec_payload_ bs <> Panic /\ mldrec_parse bs <> Panic).
